@@ -22,8 +22,8 @@ import Verif.Generated.AcmeRoutes
   * `revoke_only_owner_or_holder` — revocation ⇒ active owner account, or signature verifies under the certificate's key
   * `deactivated_nothing`       — no guarded chain lets a request through that names, or embeds the key of, a non-active account
   * `deactivated_forever`       — over every history: once deactivated, always deactivated
-  * `attest_authz_confined`     — an accepted device-attest-01 response writes only into an authorization of the
-                                  requester (D15 fixed by 365cae8); `provisioner_confined` — every account, old
+  * `attest_authz_confined`     — an accepted device-attest-01 response writes only into the authorization its
+                                  challenge belongs to, of the requester (D15 fixed by 365cae8, e055659); `provisioner_confined` — every account, old
                                   records included, acts only under its recorded provisioner (8fb1ad6)
   * (historic) a challenge response could be used with another account's
                                   authorization id (D15): `GetChallenge` checks the challenge's owner only
@@ -557,8 +557,8 @@ example : runChain (guardedChain .jwk false) { exReq with prereq := 2 } exWorldP
   rfl
 def exWorld : World :=
   { nonces := [7], accounts := [exAcct, { exAcct with id := 2, key := 12, loc := 22 }],
-    orders := [⟨50, 1, 31⟩, ⟨51, 2, 31⟩], authzs := [⟨60, 1, 0⟩, ⟨61, 2, 0⟩],
-    challenges := [⟨70, 1, 0⟩, ⟨71, 2, 0⟩], certs := [⟨80, 1, false⟩, ⟨81, 2, false⟩] }
+    orders := [⟨50, 1, 31⟩, ⟨51, 2, 31⟩], authzs := [⟨60, 1, 0⟩, ⟨61, 2, 0⟩, ⟨62, 1, 0⟩],
+    challenges := [⟨70, 1, 60⟩, ⟨71, 2, 61⟩, ⟨72, 1, 62⟩], certs := [⟨80, 1, false⟩, ⟨81, 2, false⟩] }
 
 deriving instance DecidableEq for Except
 
@@ -983,19 +983,29 @@ theorem deactivated_forever (id : Nat) (hist : List (List Mw × Handler × Req))
 
 /-- **attest_authz_confined.** A device-attest-01 response that is accepted — the only challenge
     response that writes into an authorization (the attested key fingerprint) — writes into the
-    authorization named by the URL only if that authorization belongs to the requesting account, and
-    the challenge answered is the requester's too. (Before commit 365cae8 the authorization was
-    loaded by the id in the URL and written without any ownership test.) -/
+    authorization named by the URL only if that authorization belongs to the requesting account, the
+    challenge answered is the requester's too, **and the challenge is a challenge of that very
+    authorization**. (Before commit 365cae8 the authorization was loaded by the id in the URL and written
+    without any test; before e055659 any authorization of the same account was accepted, which let the key
+    attested for one identifier become the key of another order.) -/
 theorem attest_authz_confined {rq : Req} {w w' : World} {c : Ctx} {ch az : Nat}
     (h : runHandler .getChallenge rq w c = (w', .ok (.attested ch az))) :
     ∃ a x z, c.acc = some a ∧ findOwned w.challenges ch = some x ∧ x.acct = a.id ∧
-      az = rq.target ∧ findOwned w.authzs az = some z ∧ z.acct = a.id := by
+      az = rq.target ∧ findOwned w.authzs az = some z ∧ z.acct = a.id ∧ x.prov = az := by
   obtain ⟨a, ha, ⟨x, hx, hxo⟩, ⟨z, hz, hzo⟩⟩ := confined (by decide) (by decide) h
-  refine ⟨a, x, z, ha, hx, hxo, ?_, hz, hzo⟩
   simp only [runHandler] at h
   repeat' (split at h <;> try (simp at h))
+  rename_i hbel _
   have hid := find?_id ‹findOwned w.authzs rq.target = some _›
-  rw [← h.2.2, hid]
+  have hcid := find?_id ‹findOwned w.challenges rq.target2 = some _›
+  have haz : az = rq.target := by rw [← h.2.2, hid]
+  refine ⟨a, x, z, ha, hx, hxo, haz, hz, hzo, ?_⟩
+  have hc := ‹findOwned w.challenges rq.target2 = some _›
+  have hch : ch = rq.target2 := by rw [← h.2.1, hcid]
+  rw [hch, hc] at hx
+  injection hx with hx
+  rw [← hx, haz, ← hid]
+  exact hbel
 
 /-- a response that does not write (http-01, dns-01, tls-alpn-01, or no attestation) answers the
     requester's own challenge; the authorization id of the URL is only echoed in the `Link: up` header -/
@@ -1016,6 +1026,10 @@ example : (runHandler .getChallenge { exReq with target := 60, target2 := 70, at
     = .ok (.attested 70 60) := by decide
 -- … under authorization 61 of account 2 (the D15 request): refused since 365cae8
 example : (runHandler .getChallenge { exReq with target := 61, target2 := 70, attest := true } exWorld
+    { prov := true, jws := some exJws, acc := some exAcct, jwk := some (11, 0), payload := some false }).2
+    = .error .unauthorized := by decide
+-- … under authorization 62, another authorization of account 1 itself: refused since e055659
+example : (runHandler .getChallenge { exReq with target := 62, target2 := 70, attest := true } exWorld
     { prov := true, jws := some exJws, acc := some exAcct, jwk := some (11, 0), payload := some false }).2
     = .error .unauthorized := by decide
 
